@@ -1391,6 +1391,14 @@ func (g *c02Gen) authResponse(sess *c02GenSession, defects []string, now int64) 
 		m.Creds[0].Type = "WrongType"
 		expectPex = false
 	}
+	for i := range vps {
+		// server-generated nonces (known by name only) cannot be substituted inside a JWT
+		for _, n := range []*string{vps[i].Nonce, vps[i].Challenge} {
+			if n != nil && strings.HasPrefix(*n, "on#") {
+				vps[i].JWT = false
+			}
+		}
+	}
 	multi := len(vps) > 1
 	sub := c02Submission(d, 0, multi, 0)
 	if has("forged-submission") && len(d.Descriptors) > 0 {
